@@ -4,7 +4,7 @@ from ..workloads import meshexplore
 ID = 'C10'
 TITLE = 'edge neighbours == geometric neighbours'
 LEVEL = 'exploration'
-RULE = ('same executions as C02 (bounded-exhaustive bisection sequences from 16 small initial meshes + long random '
+RULE = ('same executions as C02 (bounded-exhaustive bisection sequences from 18 small initial meshes + long random '
         'histories incl. marking steps); after each operation Edge.neighbour_elements() of every edge of every leaf '
         '(random histories: all leaves every 10th step and on small meshes, otherwise the leaves touched by the step '
         'plus a seeded sample of 32) is compared, as a set, with the leaves that share a piece of positive length of '
